@@ -587,7 +587,8 @@ func verifOf(l *TokenLimiter) verifFields {
 	return f
 }
 
-func verifAlive(l *TokenLimiter) bool { return atomic.LoadUint32(verifOf(l).alive) == 1 }
+// (reserveN's own reading of the flag: rescue mode iff it is 0)
+func verifAlive(l *TokenLimiter) bool { return atomic.LoadUint32(verifOf(l).alive) != 0 }
 
 func verifMonitor(l *TokenLimiter) bool {
 	f := verifOf(l)
